@@ -2770,7 +2770,7 @@ class TextQueryBackend(Backend):
     def convert_correlation_aggregation_groupby_from_template(
         self, group_by: list[str] | None, method: str
     ) -> str:
-        if group_by is None:
+        if not group_by:  # no group-by list, or one without entries
             if self.groupby_expression_nofield is None:
                 return ""
             else:
